@@ -79,7 +79,7 @@ def dec(v):
         return str(v)
     if isinstance(v, SNum):
         if v.is_real:
-            raise Unsupported('str() of a symbolic real')
+            return SStr([Atom('real', v.t)])      # repr of a float: opaque text determined by the value
         return SStr([Atom('dec', v.t)])
     raise Unsupported('dec(%s)' % type(v).__name__)
 
